@@ -539,8 +539,14 @@ pub fn walk_files(root: &Path) -> Vec<(String, std::fs::FileType)> {
 /// and the digest of its bytes under `<algo>` equals the hex spelled by the path.
 /// Symlinks (link_to) are accepted when `allow_symlinks` and then judged through the link.
 pub fn content_tree_violations(cache: &Path, allow_symlinks: bool) -> Vec<String> {
+    content_tree_violations_ex(cache, allow_symlinks).into_iter().map(|x| x.1).collect()
+}
+
+/// Like `content_tree_violations`, each finding tagged with the address it concerns (when
+/// the path spells one), so callers can discount files they damaged themselves.
+pub fn content_tree_violations_ex(cache: &Path, allow_symlinks: bool) -> Vec<(Option<(Algo, String)>, String)> {
     let root = cache.join("content-v2");
-    let mut bad = Vec::new();
+    let mut bad: Vec<(Option<(Algo, String)>, String)> = Vec::new();
     for (rel, ft) in walk_files(&root) {
         let parts: Vec<&str> = rel.split('/').collect();
         let ok_shape = parts.len() == 4
@@ -548,37 +554,36 @@ pub fn content_tree_violations(cache: &Path, allow_symlinks: bool) -> Vec<String
             && parts[1].len() == 2
             && parts[2].len() == 2;
         if !ok_shape {
-            bad.push(format!("misplaced file content-v2/{rel}"));
+            bad.push((None, format!("misplaced file content-v2/{rel}")));
             continue;
         }
         let algo = Algo::from_name(parts[0]).unwrap();
         let hex = format!("{}{}{}", parts[1], parts[2], parts[3]);
         if hex.len() != algo.digest_len() * 2 {
-            bad.push(format!("bad name length content-v2/{rel}"));
+            bad.push((None, format!("bad name length content-v2/{rel}")));
             continue;
         }
         if ft.is_symlink() && !allow_symlinks {
-            bad.push(format!("unexpected symlink content-v2/{rel}"));
+            bad.push((Some((algo, hex.clone())), format!("unexpected symlink content-v2/{rel}")));
             continue;
         }
         if !ft.is_file() && !ft.is_symlink() {
-            bad.push(format!("special file content-v2/{rel}"));
+            bad.push((Some((algo, hex.clone())), format!("special file content-v2/{rel}")));
             continue;
         }
         match std::fs::read(root.join(&rel)) {
             Ok(bytes) => {
                 let d = hexs(&crate::blob::digest_raw(algo, &bytes));
                 if d != hex {
-                    bad.push(format!(
-                        "content-v2/{rel} holds {} bytes whose {} digest is {d}",
-                        bytes.len(),
-                        algo.name()
+                    bad.push((
+                        Some((algo, hex.clone())),
+                        format!("content-v2/{rel} holds {} bytes whose {} digest is {d}", bytes.len(), algo.name()),
                     ));
                 }
             }
             Err(e) => {
                 if !ft.is_symlink() {
-                    bad.push(format!("unreadable content-v2/{rel}: {e}"));
+                    bad.push((Some((algo, hex.clone())), format!("unreadable content-v2/{rel}: {e}")));
                 }
             }
         }
